@@ -14,11 +14,13 @@ Definition ptr_of (r : option jv) : jv := match r with Some v => v | None => JNu
 
 Definition msg_of_ptr (p : jv) : rmsg := match p with JNull => MParse | _ => MNone end.
 
-(* "parsing the same bytes from memory in one call with the configured depth" *)
-Definition memory_result (parse : Z -> list byte -> option jv) (in_depth : Z) (data : list byte)
+(* "parsing the same bytes from memory with the configured depth": the two-step parse2 (one call
+   on the bytes; when that answers continue without a value, one more on the terminating NUL) *)
+Definition memory_result (parse : tokener) (in_depth : Z) (data : list byte)
                          (reads : Z) : rout :=
-  let p := ptr_of (parse (eff_depth in_depth) data) in
-  mkrout p (msg_of_ptr p) reads (Some (eff_depth in_depth, data)) 0.
+  let '(r, ncalls) := parse2 parse (eff_depth in_depth) data in
+  let p := ptr_of r in
+  mkrout p (msg_of_ptr p) reads (Some (eff_depth in_depth, data, ncalls)) 0.
 
 Definition always (app_ok : Z -> Z -> bool) : Prop := forall l n, app_ok l n = true.
 
@@ -468,7 +470,8 @@ Qed.
 (* ---- the exported read theorems, on json_object_from_fd_ex ---- *)
 
 (* reads split in any way (sizes >= 1, one entry more than bytes is always enough): the
-   parser is called once, with exactly the data and the configured depth, and the result,
+   tokener gets exactly the data and the configured depth (parse2: one call, or two when the
+   first answers continue), and the result,
    the message and the resources are those of that one in-memory parse *)
 Theorem read_as_memory : forall parse app_ok sched data in_depth,
   always app_ok -> Forall ge1 sched -> zlen data < zlen sched -> 1 <= eff_depth in_depth ->
@@ -482,7 +485,8 @@ Proof.
   pose proof (zlen_nonneg data).
   destruct (read_loop_complete app_ok sched data 0 0 HA HF) as (c & Hc & Hb); [lia|lia|].
   rewrite zfirstn_0, zskipn_0 in Hc. rewrite Hc. exists c. split; [|lia].
-  unfold memory_result, msg_of_ptr, ptr_of. reflexivity.
+  unfold memory_result, msg_of_ptr, ptr_of.
+  destruct (parse2 parse (eff_depth in_depth) data) as [r n]. reflexivity.
 Qed.
 
 Theorem read_ge1_complete_or_short : forall parse app_ok sched data in_depth,
@@ -498,7 +502,8 @@ Proof.
   pose proof (zlen_nonneg data).
   destruct (read_loop_ge1 app_ok sched data 0 0 HA HF) as [(c & Hc)|(p & Hp & Hb)]; [lia| |];
     rewrite zfirstn_0, zskipn_0 in *.
-  - left. exists c. rewrite Hc. reflexivity.
+  - left. exists c. rewrite Hc. unfold memory_result, msg_of_ptr, ptr_of.
+    destruct (parse2 parse (eff_depth in_depth) data) as [r n]. reflexivity.
   - right. exists (zfirstn p data). rewrite Hp. split; [reflexivity|apply zfirstn_is_prefix].
 Qed.
 
@@ -525,7 +530,8 @@ Proof.
       rewrite R1 in E1; [|discriminate].
     destruct (read_ge1_complete_or_short parse app_ok s2 data in_depth HA H2 Hd) as [(c2 & R2)|(pb & R2 & _)];
       rewrite R2 in E2; [|discriminate].
-    inversion E1; inversion E2; subst. cbn. auto.
+    inversion E1; inversion E2; subst. unfold memory_result.
+    destruct (parse2 parse (eff_depth in_depth) data) as [r n]. cbn. auto.
 Qed.
 
 (* a read error at call k = |pre| + 1 (the data need not be exhausted: the call that would
@@ -544,12 +550,12 @@ Proof.
 Qed.
 
 (* on every path, for every schedule, parser and append oracle: NULL comes with a message, a
-   tree comes without one and from the one parser call, and nothing stays allocated *)
+   tree comes without one and from parse2 on a prefix of the data, and nothing stays allocated *)
 Theorem read_failure_has_message_no_leak : forall parse app_ok sched data in_depth o,
   object_from_fd_ex parse app_ok sched data in_depth = RRet o ->
   (r_obj o = JNull <-> r_msg o <> MNone) /\
-  (r_obj o <> JNull -> exists pb, r_parsed o = Some (eff_depth in_depth, pb) /\
-                                  parse (eff_depth in_depth) pb = Some (r_obj o) /\ is_prefix pb data) /\
+  (r_obj o <> JNull -> exists pb n, r_parsed o = Some (eff_depth in_depth, pb, n) /\
+                                    parse2 parse (eff_depth in_depth) pb = (Some (r_obj o), n) /\ is_prefix pb data) /\
   r_live o = 0.
 Proof.
   intros parse app_ok sched data in_depth o E.
@@ -559,14 +565,17 @@ Proof.
   - pose proof (zlen_nonneg data).
     destruct (read_loop_sound app_ok sched data 0 0) as (p & Hp & Hm); [lia|].
     rewrite zfirstn_0, zskipn_0 in Hm.
-    destruct (read_loop app_ok sched data [] 0 0); try discriminate;
-      inversion E; subst; cbn; try (repeat split; try congruence; intros; congruence).
-    destruct (parse (eff_depth in_depth) (zfirstn p data)) as [v|] eqn:P.
-    + repeat split.
-      * intros ->. discriminate.
-      * destruct v; cbn; congruence.
-      * intros Hn. exists (zfirstn p data). repeat split; trivial. apply zfirstn_is_prefix.
-    + repeat split; try congruence; intros; congruence.
+    destruct (read_loop app_ok sched data [] 0 0) as [pb c|pb c|pb c|pb c]; try discriminate.
+    + subst pb.
+      destruct (parse2 parse (eff_depth in_depth) (zfirstn p data)) as [[v|] n] eqn:P;
+        inversion E; subst; cbn.
+      * repeat split.
+        -- intros ->. discriminate.
+        -- destruct v; cbn; congruence.
+        -- intros Hn. exists (zfirstn p data), n. repeat split; trivial. apply zfirstn_is_prefix.
+      * repeat split; try congruence; intros; congruence.
+    + inversion E; subst; cbn. repeat split; try congruence; intros; congruence.
+    + inversion E; subst; cbn. repeat split; try congruence; intros; congruence.
 Qed.
 
 (* the append oracle refusing (allocation failure / INT_MAX, C19) is a reported failure *)
@@ -816,19 +825,28 @@ Example write_nonvacuous :
 Proof. repeat split. Qed.
 
 (* a parser stand-in that shows its arguments: depth and bytes *)
-Definition show_parse (d : Z) (bs : list byte) : option jv := Some (JArr [JInt d; JStr bs]).
+Definition show_parse : tokener := mktokener (fun d bs => PVal (JArr [JInt d; JStr bs])) (fun _ _ => None).
+
+(* a tokener stand-in for texts that need the end of the data: "42" is continue and becomes 42
+   with the NUL; anything else stays unfinished *)
+Definition literal_tokener : tokener :=
+  mktokener (fun _ _ => PContinue) (fun _ bs => if bytes_eqb bs [52;50] then Some (JInt 42) else None).
 
 Example read_nonvacuous :
   object_from_fd_ex show_parse (fun _ _ => true) [Short 1; Short 5000; Short 1; Short 1] [91;49;93] 7 =
-    RRet (mkrout (JArr [JInt 7; JStr [91;49;93]]) MNone 3 (Some (7, [91;49;93])) 0)
+    RRet (mkrout (JArr [JInt 7; JStr [91;49;93]]) MNone 3 (Some (7, [91;49;93], 1)) 0)
   /\ object_from_fd_ex show_parse (fun _ _ => true) [Short 3; Short 3] [91;49;93] (-1) =
-    RRet (mkrout (JArr [JInt 32; JStr [91;49;93]]) MNone 2 (Some (32, [91;49;93])) 0)
+    RRet (mkrout (JArr [JInt 32; JStr [91;49;93]]) MNone 2 (Some (32, [91;49;93], 1)) 0)
   /\ object_from_fd_ex show_parse (fun _ _ => true) [Short 2; Err 5] [91;49;93] 7 =
     RRet (mkrout JNull MRead 2 None 0)
   /\ object_from_fd_ex show_parse (fun _ _ => true) [Short 3; Err 4] [91;49;93] 7 =   (* EINTR at the end-of-file call *)
     RRet (mkrout JNull MRead 2 None 0)
-  /\ object_from_fd_ex (fun _ _ => None) (fun _ _ => true) [Short 2; Short 2; Short 2] [91;49;93] 7 =
-    RRet (mkrout JNull MParse 3 (Some (7, [91;49;93])) 0)
+  /\ object_from_fd_ex (mktokener (fun _ _ => PError) (fun _ _ => None)) (fun _ _ => true) [Short 2; Short 2; Short 2] [91;49;93] 7 =
+    RRet (mkrout JNull MParse 3 (Some (7, [91;49;93], 1)) 0)
+  /\ object_from_fd_ex literal_tokener (fun _ _ => true) [Short 1; Short 1; Short 1] [52;50] 7 =   (* the file holds just 42 *)
+    RRet (mkrout (JInt 42) MNone 3 (Some (7, [52;50], 2)) 0)
+  /\ object_from_fd_ex literal_tokener (fun _ _ => true) [Short 9; Short 9] [91;52;50] 7 =        (* [42 : unfinished *)
+    RRet (mkrout JNull MParse 2 (Some (7, [91;52;50], 2)) 0)
   /\ object_from_fd_ex show_parse (fun _ _ => true) [Short 2; Short 2; Short 2] [91;49;93] 0 =
     RRet (mkrout JNull MTokNew 0 None 0)
   /\ object_from_fd_ex show_parse (fun l _ => l <? 2) [Short 2; Short 2; Short 2] [91;49;93] 7 =
@@ -839,13 +857,13 @@ Proof. repeat split. Qed.
    file early makes the function parse a truncated document *)
 Example read_zero_truncates :
   object_from_fd_ex show_parse (fun _ _ => true) [Short 2; Short 0; Short 5] [91;49;93] 7 =
-    RRet (mkrout (JArr [JInt 7; JStr [91;49]]) MNone 2 (Some (7, [91;49])) 0).
+    RRet (mkrout (JArr [JInt 7; JStr [91;49]]) MNone 2 (Some (7, [91;49], 1)) 0).
 Proof. reflexivity. Qed.
 
 (* chunks are cut at the 4096-byte stack buffer whatever the schedule offers *)
 Example read_chunked_at_buffer_size :
   exists o, object_from_fd_ex show_parse (fun _ _ => true) [Short 100000; Short 100000; Short 100000; Short 1]
-              (zrepeat 32 8192) 7 = RRet o /\ r_reads o = 3 /\ r_parsed o = Some (7, zrepeat 32 8192).
+              (zrepeat 32 8192) 7 = RRet o /\ r_reads o = 3 /\ r_parsed o = Some (7, zrepeat 32 8192, 1).
 Proof. eexists. vm_compute. repeat split. Qed.
 
 (* path "a" = [97]; the file held 9 bytes, the serialization has 3 *)
@@ -863,7 +881,7 @@ Example file_nonvacuous :
     (RRet (mkrout JNull MOpen 0 None 0), fs, 1, 0)
   /\ object_from_file_fs None fs [97] show_parse (fun _ _ => true) [Short 4; Short 9; Short 9] =
     (RRet (mkrout (JArr [JInt 32; JStr [49;50;51;52;53;54;55;56;57]]) MNone 3
-                  (Some (32, [49;50;51;52;53;54;55;56;57])) 0), fs, 1, 1)
+                  (Some (32, [49;50;51;52;53;54;55;56;57], 1)) 0), fs, 1, 1)
   /\ object_to_file_with (mkofl O_RDONLY false false false false) None fs [97] [Short 9] false (Some [91;49;93]) =
     (WRet (-1) true [] 1, fs, 1, 1)
   /\ object_to_file_with (mkofl O_WRONLY true false true false) None fs [97] [Short 9] false (Some [91;49;93]) =
